@@ -65,13 +65,20 @@ def Term.alias? : Term → Option Str
 def Query.fl : Query → QFlags | .mk fl .. => fl
 def Query.selects : Query → List Term | .mk _ _ _ sel .. => sel
 
+/-! pagination keywords (named so that the specification side can match on them) -/
+def kwLimit : Str := " LIMIT ".toList
+def kwOffset : Str := " OFFSET ".toList
+def kwFetchNext : Str := " FETCH NEXT ".toList
+def kwRows : Str := " ROWS".toList
+def kwRowsOnly : Str := " ROWS ONLY".toList
+
 def limitDoc (fetch : Bool) (n : Nat) : Doc :=
-  if fetch then [kws " FETCH NEXT ", .num false (natText n), kws " ROWS ONLY"]
-  else [kws " LIMIT ", .num false (natText n)]
+  if fetch then [.kw kwFetchNext, .num false (natText n), .kw kwRowsOnly]
+  else [.kw kwLimit, .num false (natText n)]
 
 def offsetDoc (fetch : Bool) (n : Nat) : Doc :=
-  if fetch then [kws " OFFSET ", .num false (natText n), kws " ROWS"]
-  else [kws " OFFSET ", .num false (natText n)]
+  if fetch then [.kw kwOffset, .num false (natText n), .kw kwRows]
+  else [.kw kwOffset, .num false (natText n)]
 
 /-- pagination tail of one dialect family (`_apply_pagination` and overrides), without LIMIT BY -/
 def paginate (cls : QClass) (limit offset : Option Nat) : Doc :=
